@@ -13,6 +13,7 @@ generator, and the opcode-table check of the transpiler."""
 import itertools
 import os
 import re
+import shutil
 
 from .. import core, tracecheck
 
@@ -122,31 +123,44 @@ def b04_in(d, entry, cpu=10, keep_artefacts=False, inspect=None):
     return _finish(s, d)
 
 
-def b18_in(d, entry, cpu=10, keep_artefacts=False, inspect=None):
+def b18_in(d, entry, cpu=10, keep_artefacts=False, inspect=None, mode="move"):
+    """Pipeline B of C18 in directory d as it is.  mode: move   - the listing x.mmm is renamed to x.transpiled.mmm
+                                                       copy   - it is copied: the (longer) listing is still at x.mmm
+                                                                when `transpile` writes x.mmm
+                                                       srcout - sources + compile in d/src, listing moved to
+                                                                d/out/x.transpiled.mmm, transpile + execute in d/out
+                                                                (a binary of an earlier round stays in d/out)"""
     s = Side()
-    r = _step(s, "compile_raw_text", core.ms("compile", entry, "--output-format", "raw-text", "--quick"), d, cpu)
+    src = os.path.join(d, "src") if mode == "srcout" else d
+    outd = os.path.join(d, "out") if mode == "srcout" else d
+    os.makedirs(outd, exist_ok=True)
+    r = _step(s, "compile_raw_text", core.ms("compile", entry, "--output-format", "raw-text", "--quick"), src, cpu)
     if r.cls != "ok":
         s.rejected = _is_compile_reject(r)
         return s
     stem = entry[:-3]
     try:
-        os.replace(os.path.join(d, stem + ".mmm"), os.path.join(d, stem + ".transpiled.mmm"))
+        if mode == "copy":
+            shutil.copyfile(os.path.join(src, stem + ".mmm"), os.path.join(outd, stem + ".transpiled.mmm"))
+        else:
+            os.makedirs(os.path.dirname(os.path.join(outd, stem)), exist_ok=True)
+            os.replace(os.path.join(src, stem + ".mmm"), os.path.join(outd, stem + ".transpiled.mmm"))
     except OSError as ex:
         raise core.Inconclusive("raw-text output missing: %s" % ex)
     if keep_artefacts:
-        s.artefacts["text_form"] = _read(os.path.join(d, stem + ".transpiled.mmm"))
-    r = _step(s, "transpile", core.ms("transpile", stem + ".transpiled.mmm"), d, cpu)
+        s.artefacts["text_form"] = _read(os.path.join(outd, stem + ".transpiled.mmm"))
+    r = _step(s, "transpile", core.ms("transpile", stem + ".transpiled.mmm"), outd, cpu)
     if keep_artefacts or inspect:
-        b = _read(os.path.join(d, stem + ".mmm"), binary=True)
+        b = _read(os.path.join(outd, stem + ".mmm"), binary=True)
         if keep_artefacts:
             s.artefacts["binary_file"] = _show_bytes(b)
         if inspect and b is not None:
             s.artefacts.update(inspect(b))
     if r.cls != "ok":
         return s
-    _rm_dump(d)
-    _step(s, "execute", core.ms("execute", stem + ".mmm"), d, cpu, dump=True)
-    return _finish(s, d)
+    _rm_dump(outd)
+    _step(s, "execute", core.ms("execute", stem + ".mmm"), outd, cpu, dump=True)
+    return _finish(s, outd)
 
 
 def _rm_dump(d):
@@ -374,6 +388,7 @@ def work_program(item):
     res["n_instr"] = sum(len(c) for c in a.dump.values())
     res["str_args"] = sum(1 for c in a.dump.values() for op, args in c if op == MAKE_STR)
     res["exit"] = a.res.cls
+    res["repeated_labels"] = len(repeated_labels(a.dump_text))
     if status != "compared":
         return res
     if devs and devs[0][0] == "stdout":          # (with an exit deviation the stdout difference is its consequence)
@@ -775,6 +790,8 @@ def collect_programs(prop, out, items, sig_of):
         cov[group + ".string_arguments_compared"] = cov.get(group + ".string_arguments_compared", 0) + res["str_args"]
         if res["n_files"] > 1:
             cov[group + ".multi_module"] = cov.get(group + ".multi_module", 0) + 1
+        if res.get("repeated_labels"):
+            cov[group + ".programs_with_repeated_labels"] = cov.get(group + ".programs_with_repeated_labels", 0) + 1
         if res.get("exit") != "ok":
             cov[group + ".failing_at_run_time_in_both"] = cov.get(group + ".failing_at_run_time_in_both", 0) + (
                 0 if res["devs"] else 1)
@@ -988,8 +1005,15 @@ def mmm_layout(b):
     return len(b), fstarts, rstarts
 
 
-def measure(files, entry, target):
-    """Bytes of <target> written by `compile <entry> --quick` in a fresh directory."""
+def measure(files, entry, target, prop="C04"):
+    """Bytes of <target> as pipeline B of `prop` produces it in a fresh directory (entry file: through the whole
+    flow, so for C18 it is the transpiler's output; an imported module: written by `compile`)."""
+    if target == entry[:-3] + ".mmm":
+        side = PIPE_B[prop](files, entry, 10, False, lambda b: {"_raw": b})
+        b = side.artefacts.get("_raw")
+        if b is None or side.stage != "execute":
+            raise core.Inconclusive("history: cannot measure %s (stage %s)" % (target, side.stage))
+        return b
     d = core.case_dir("M")
     try:
         core.write_files(d, files)
@@ -1019,6 +1043,17 @@ def history_catalogue():
         for rel in ("much_shorter", "fn_boundary_2", "shorter_1"):
             cases.append(("entry3", fam, rel, {"a": {"main.ms": a_src}, "b": {"main.ms": HIST_SHORT}, "a2": {"main.ms": a2},
                                                "target": "main.mmm", "order": "ABA"}))
+        # C18 only: an x.mmm is already there when `transpile` writes it
+        for rel in rel_entry:
+            cases.append(("srcout", fam, rel, {"a": {"main.ms": a_src}, "b": {"main.ms": HIST_SHORT}, "target": "main.mmm",
+                                               "order": "AB", "exec": "srcout"}))
+        cases.append(("srcout", fam, "reverse_longer_over_shorter", {"a": {"main.ms": a_src}, "b": {"main.ms": HIST_SHORT},
+                                                                      "target": "main.mmm", "order": "BA", "exec": "srcout"}))
+        cases.append(("srcout3", fam, "much_shorter", {"a": {"main.ms": a_src}, "b": {"main.ms": HIST_SHORT}, "a2": {"main.ms": a2},
+                                                       "target": "main.mmm", "order": "ABA", "exec": "srcout"}))
+        for order in ("A", "AB", "BA"):
+            cases.append(("copy", fam, "listing_left_in_place_" + order, {"a": {"main.ms": a_src}, "b": {"main.ms": HIST_SHORT},
+                                                                           "target": "main.mmm", "order": order, "exec": "copy"}))
     lib = {"a": {"main.ms": HIST_MAIN, "lib_h.ms": HIST_LIB_A}, "b": {"main.ms": HIST_MAIN, "lib_h.ms": HIST_LIB_B},
            "target": "lib_h.mmm"}
     for via in ("module", "module_run"):
@@ -1044,11 +1079,11 @@ def work_history(item):
         steps = spec["steps"]
     else:
         a_files, target = spec["a"], spec["target"]
-        a_bytes = measure(a_files, entry, target)
+        a_bytes = measure(a_files, entry, target, prop)
         size_a, fstarts, rstarts = mmm_layout(a_bytes)
-        s0 = len(measure(_padded(spec["b"], 0), entry, target))
+        s0 = len(measure(_padded(spec["b"], 0), entry, target, prop))
         want = None
-        if rel in ("much_shorter", "reverse_longer_over_shorter"):
+        if rel in ("much_shorter", "reverse_longer_over_shorter") or rel.startswith("listing_left_in_place"):
             want = s0
         elif rel.startswith("shorter_"):
             want = size_a - int(rel.split("_")[1])
@@ -1067,21 +1102,25 @@ def work_history(item):
             res["status"] = "unreachable_relation"
             return res
         b_files = _padded(spec["b"], want - s0)
-        got = len(measure(b_files, entry, target))
+        got = len(measure(b_files, entry, target, prop))
         if got != want:
             raise core.Inconclusive("history: padded B is %d bytes, wanted %d" % (got, want))
         res["sizes"] = {"A": size_a, "B": got, "A_function_starts": fstarts}
-        steps = {"AB": [a_files, b_files], "BA": [b_files, a_files], "ABA": [a_files, b_files, spec.get("a2", a_files)]}[spec["order"]]
+        steps = {"A": [a_files], "AB": [a_files, b_files], "BA": [b_files, a_files],
+                 "ABA": [a_files, b_files, spec.get("a2", a_files)]}[spec["order"]]
     d = core.case_dir("H")
     try:
+        how = spec.get("exec") or ("run" if kind == "module_run" else "b")
         for i, files in enumerate(steps):
-            core.write_files(d, files)
-            if kind == "module_run":
+            core.write_files(os.path.join(d, "src") if how == "srcout" else d, files)
+            if how == "run":
                 _rm_dump(d)
                 b = Side()
                 r = _step(b, "run", core.ms("run", entry, "-q"), d, 10, dump=True)
                 b.rejected = r.cls != "ok" and _is_compile_reject(r)
                 _finish(b, d)
+            elif how in ("copy", "srcout"):
+                b = b18_in(d, entry, 10, keep_artefacts=True, mode=how)
             else:
                 b = B_IN[prop](d, entry, 10, keep_artefacts=True)
             a = pipeline_a(files, entry, 10)
@@ -1092,10 +1131,11 @@ def work_history(item):
                 return res
             if devs:
                 what = ("after step %d of %d (%s the same directory, sources replaced in place)" % (
-                    i + 1, len(steps), "`run` in" if kind == "module_run" else "pipeline B in"))
+                    i + 1, len(steps), {"run": "`run` in", "copy": "pipeline B, listing copied instead of renamed, in",
+                                        "srcout": "pipeline B with src/ and out/ under"}.get(how, "pipeline B in")))
                 res["devs"] = [(k, "%s: %s" % (what, t)) for k, t in devs]
                 res["witness"] = {"history": [dict(f) for f in steps[:i + 1]], "files": files, "entry": entry,
-                                  "pipeline": prop, "kind": kind, "relation": rel, "sizes": res["sizes"], "deviations": res["devs"],
+                                  "pipeline": prop, "kind": kind, "exec": how, "relation": rel, "sizes": res["sizes"], "deviations": res["devs"],
                                   "run_fresh": a.brief(), "pipeline_b_in_history_dir": b.brief()}
                 return res
         return res
@@ -1107,6 +1147,8 @@ def collect_histories(prop, out, extra_items=()):
     items = [(prop, kind, fam, rel, spec) for kind, fam, rel, spec in history_catalogue()]
     if prop == "C18":          # raw-text is only produced for the entry; `run`-only histories belong to C04
         items = [it for it in items if it[1] != "module_run"]
+    else:                      # copy / src+out layouts are about the transpiler's output file
+        items = [it for it in items if not it[4].get("exec")]
     items += list(extra_items)
     results = core.pmap(work_history, items, chunksize=1)
     cov = {"history_cases": 0, "history_steps_compared": 0, "history_unreachable_relations": 0, "history_relations": set(),
@@ -1141,7 +1183,10 @@ def collect_histories(prop, out, extra_items=()):
 
 def replay_history(prop, w):
     kind = w.get("kind", "entry")
-    res = work_history((prop, kind, "replay", w.get("relation", ""), {"steps": w["history"]}))
+    spec = {"steps": w["history"]}
+    if w.get("exec") in ("copy", "srcout"):
+        spec["exec"] = w["exec"]
+    res = work_history((prop, kind, "replay", w.get("relation", ""), spec))
     return res
 
 
@@ -1256,3 +1301,77 @@ def collect_large(prop, out, quick):
     return {"large_programs_compared": n, "large_biggest_bytecode_bytes": biggest,
             "large_offsets_4096k_straddled_by_a_character_in_some_variant": sorted(covered),
             "large_groups(shape,width,KiB)": len(groups)}
+
+
+# ----------------------------------------------------------------------------- repeated function labels
+#
+# Class labels are not scope-qualified (`Name`, `Name::$constructor`, `Name::<method>`): same-named local classes in
+# different functions / blocks, or a class called `__fn0`, make the compiler emit one label several times in a module.
+# `run`'s in-memory builder and the loader keep the LAST body per label; every pipeline has to carry all of them.
+
+def _dup_class(name, tag, field, consts, extra_method):
+    out = ["\tclass %s {" % name, "\t\t%s: int" % field,
+           "\t\tconstructor(self, c%s: int) {" % tag, "\t\t\tself.%s = c%s + %d" % (field, tag, consts[0]), "\t\t}",
+           "\t\tfn area(self) -> int {", "\t\t\treturn self.%s * %d + %d" % (field, consts[1], consts[2]), "\t\t}"]
+    if extra_method:
+        out += ["\t\tfn label(self) -> str {", "\t\t\treturn \"%s of %s #\" + self.%s" % (name, tag, field), "\t\t}"]
+    return out + ["\t}"]
+
+
+def duplabel_program(shape, n, use, rng):
+    """shape: functions | blocks | fn_named_class;  n: number of same-named declarations;  use: which one(s) run."""
+    name = rng.choice(["Shape", "Node", "Acc"])
+    out = []
+    if shape == "functions":
+        for i in range(n):
+            extra = rng.random() < 0.5
+            out.append("mk%d = fn(p%d: int) -> int {" % (i, i))
+            out += _dup_class(name, "f%d" % i, "v%d" % i, [rng.randrange(0, 9), rng.randrange(2, 9), 10 * (i + 1)], extra)
+            out += ["\to%d = %s(p%d)" % (i, name, i)]
+            if extra:
+                out.append("\tprint o%d.label()" % i)
+            out += ["\treturn o%d.area()" % i, "}"]
+        for i in ({"last": [n - 1], "first": [0], "all": list(range(n)), "middle": [n // 2]}[use]):
+            out.append("print \"mk%d -> \" + mk%d(%d)" % (i, i, rng.randrange(1, 9)))
+    elif shape == "blocks":
+        for i in range(n):
+            out.append("if %s {" % ("true" if (use == "all" or (use == "last") == (i == n - 1)) else "false"))
+            out += _dup_class(name, "b%d" % i, "w%d" % i, [i, rng.randrange(2, 9), 100 * (i + 1)], False)
+            out += ["\tq%d = %s(%d)" % (i, name, rng.randrange(1, 9)), "\tprint q%d.area()" % i, "}"]
+    else:                                   # a class whose label collides with a generated function label
+        k = rng.randrange(0, 2)
+        cls = ["class __fn%d {" % k, "\tz: int", "\tconstructor(self, cz: int) {", "\t\tself.z = cz", "\t}",
+               "\tfn area(self) -> int {", "\t\treturn self.z * 7", "\t}", "}"]
+        fns = ["g%d = fn(x%d: int) -> int {\n\treturn x%d + %d\n}" % (i, i, i, 11 * (i + 1)) for i in range(2)]
+        out += (cls + fns) if use != "first" else (fns + cls)
+        out += ["print g0(1)", "print g1(1)", "oz = __fn%d(3)" % k, "print oz.area()"]
+    out.append("print \"@@end\"")
+    return "\n".join(out) + "\n"
+
+
+def duplabel_cases(rng, n_random):
+    cases = []
+    for shape, ns, uses in (("functions", (2, 3), ("last", "first", "all", "middle")), ("blocks", (2, 3), ("last", "first", "all")),
+                            ("fn_named_class", (2,), ("last", "first"))):
+        for n in ns:
+            for use in uses:
+                cases.append(("duplabel/%s/%d/%s" % (shape, n, use), {"main.ms": duplabel_program(shape, n, use, rng)}, "main.ms"))
+    for _ in range(n_random):
+        shape = rng.choice(["functions", "functions", "functions", "blocks"])
+        n, use = rng.choice((2, 3, 4)), rng.choice(["last", "last", "first", "all", "middle"] if shape == "functions" else ["last", "first"])
+        cases.append(("duplabel/%s/%d/%s" % (shape, n, use), {"main.ms": duplabel_program(shape, n, use, rng)}, "main.ms"))
+    return cases
+
+
+def repeated_labels(dump_text):
+    """Labels defined more than once in one file, from the raw H-DUMP text (parse_dump keeps only the last body)."""
+    seen, rep = {}, set()
+    for line in (dump_text or "").split("\n"):
+        if line[:1] == "F":
+            strs = tracecheck._STR.findall(line)
+            if len(strs) >= 2:
+                k = (strs[0], strs[1])
+                if k in seen:
+                    rep.add(tracecheck._unq(strs[1]))
+                seen[k] = 1
+    return sorted(rep)
